@@ -78,6 +78,8 @@ def engine_jobs(prop, tier, seed, avoid, spec=None, extra_flags=None, label_pref
             if avoid:
                 args += ["-avoid", ",".join(avoid)]
             env = {}
+            if prop == "C01" and tier == "thorough" and variant == "plain" and sh == 0:
+                env["VERIF_BIGMEM"] = "1"  # scenario F29 (a 2 GiB column; about 2 GiB resident) runs in the thorough tier only
             if variant == "race":
                 env["GORACE"] = "halt_on_error=0"
             jobs.append(dict(cmd="worker", variant=variant, args=args, label=f"{label_prefix}{spec['profile']}/{variant}/shard{sh}", env=env,
